@@ -34,7 +34,13 @@ func SetApd(r *apd.Decimal, d dec.D) {
 	// bits and came back. Such a coefficient is heap-backed although it is
 	// small - including the heap-backed zero that no constructor produces.
 	if d.C != nil && d.C.BitLen() <= 128 && heapHistory(d) {
+		// start from a different small value so that the inline words left
+		// behind are stale and non-zero, go beyond 128 bits, come back
+		r.Coeff.SetInt64(0x1234567)
 		r.Coeff.Add(&r.Coeff, bigBump)
+		var delta apd.BigInt
+		delta.SetMathBigInt(new(big.Int).Sub(d.C, big.NewInt(0x1234567)))
+		r.Coeff.Add(&r.Coeff, &delta)
 		r.Coeff.Sub(&r.Coeff, bigBump)
 	}
 }
